@@ -449,8 +449,8 @@ CHECKS["C07"].update({
              "Nested lists of lists in the trace model and non-ASCII digits in lexemes are exercised, not modelled."),
 })
 CHECKS["C08"]["note"] = ("Trusted: Lean kernel; generators; asyncio task scheduling is only exercised. Known finding E2 (a completion that raises AFTER sub-resolvers "
-                         "of the same field were started abandons them). Residual that no model here exhibits: true parallel interleaving of callback bodies on "
-                         "worker threads (non-atomic `done += 1` in gather_futures). Hang verdicts are progress-based and confirmed by a second isolated run.")
+                         "of the same field were started abandons them). Parallel interleaving of callback bodies on worker threads is modelled for "
+                         "gather_futures' counter only (RuntimeRace.lean: LOAD / STORE / TEST micro-steps, finding E2r); other callback bodies are atomic in the model. Hang verdicts are progress-based and confirmed by a second isolated run.")
 CHECKS["C09"]["note"] = "Trusted: Lean kernel; generators. Known finding E2 (see C08) also shows as a serial-order violation when a completion raises after its sub-resolvers started."
 CHECKS["C10"].update({
     "text": ("Lean theorems about the hand model of index_to_loc / to_dict of every error class / GraphQLResult.response / the staged process_graphql_query / the "
@@ -663,3 +663,43 @@ CHECKS["C05"]["note"] = CHECKS["C05"]["note"].rstrip() + (
     "NOT yet derived from the silent OverlappingFieldsCanBeMerged visitor), NoIntrospection, non-empty fragment names (parser), WorldTyped (part of the "
     "statement). Known findings H13a (validate_ast RecursionError from ~150 nesting levels of selection sets / ~200 of input object literals), H13b (generic "
     "Executor RecursionError on a 200-fragment field-nested chain that validates).")
+
+
+def _add_rt(k, text=None, note=None):
+    if text:
+        CHECKS[k]["text"] = CHECKS[k]["text"].rstrip() + " ADDED IN THE RUNTIME ROUND: " + text
+    if note:
+        CHECKS[k]["note"] = CHECKS[k].get("note", "").rstrip() + " " + note
+
+
+_add_rt("C08", "RuntimeRace.lean splits gather_futures.on_finish into the micro-steps LOAD / STORE / TEST of `done += 1` ... `if done == target_count` run "
+               "by n workers under any interleaving: gather_nonatomic_lost_update(_3, _preempted) and gather_terminates_nonatomic_refuted (a lost update "
+               "leaves the aggregate Future unset although every callback returned), gather_atomic_sets_outer and gather_locked_sets_outer (atomic increment, "
+               "or the non-atomic steps under a lock from LOAD to STORE: for every n > 0 and EVERY interleaving the aggregate is set exactly once and no "
+               "update is lost). probe_gather_lost_update replays the witness schedule on the REAL gather_futures (opcode tracer + second thread, preemption "
+               "forced between LOAD_DEREF and STORE_DEREF). Every wait of the harness on the code under test is bounded: a deterministic deadlock detector in "
+               "the single-threaded manual-executor worlds (a Future.result() on a pending future there can never return), SIGALRM watchdogs around "
+               "process_graphql_query itself on real pools, a per-stage wall-clock backstop (never-completes:stage:<name>), blocked pool workers detached at exit.",
+        "Known finding E2r (the lost update, latent under the CPython 3.12 GIL; proposed_fixes/C08-gather-counter-lock.patch is offered). async_eq_blocking has "
+        "no completeness hypothesis on the schedule (it speaks about whatever schedule produced a result). Abstract types, lazy iterables and completion-time "
+        "ResolverErrors after sub-resolvers started (E2) are outside the Lean executor model (exercised, oracle only).")
+_add_rt("C09", "the `args` queue as an invariant over ALL steps of EVERY schedule (Lemmas/ExecSerialOrder.lean): serial_queue_invariant (top-level "
+               "invocations so far ++ queue = document order while the serial callback is waiting; a prefix once it finished or failed), "
+               "top_calls_in_document_order, jth_call_is_jth_field, no_later_call_before_earlier_done (at each top-level call: everything invoked before has "
+               "finished AND it is exactly the next field in document order), serial_queue_head_called_next (one step: `_next` first invokes the head of the "
+               "queue), failure cases nonnull_violation_at_root_continues and unexpected_stops_later_fields (sync: propagates out of `_next`; deferred: the "
+               "chain fails; no later top-level resolver runs).",
+        "The model's `_next` is the recursive form; the loop + lock of today's execute_fields_serially is tied to it by the trace correspondence and the "
+        "interleaving stage only.")
+_add_rt("C16", "named probe default-resolved-deferred-list (lists of 2-3 objects whose DEFAULT-resolved field holds a Future / awaitable / async method, no "
+               "middleware, thread pool and asyncio, every completion order, hook paths copied at hook time; oracle: one start and one end per path); the "
+               "manual-pool runs are under the deterministic deadlock detector.",
+        "The per-(type, nodes) sharing of one ResolveInfo between list items (seeded C16-11) is covered by that probe only, not by the Lean trace model.")
+_add_rt("C17", "fault sequences (SubscribeFaults.lean): the SOURCE raising from __anext__ mid-stream, events whose processing raises an unexpected exception "
+               "(their partial errors stay in the shared executor), a consumer that reads on: faults_do_not_leak (what the consumer sees equals the "
+               "state-free specification: every surviving event executed on a fresh executor, source errors consume no event index), one_pull_per_item, "
+               "async_for_stops_at_first_fault (results of the prefix, |prefix|+1 source pulls, nothing behind the fault consumed), "
+               "crash_leaks_without_clear_errors (decide witness), drain_eq_pullsOf. Tied by driver op `faults` and a deterministic stage over all 84 "
+               "sequences of length <= 3 (correspondence + direct oracle with position-tagged error messages).",
+        "AsyncMap defines no aclose / athrow (`__slots__ = (source_stream, map_value)`): closing is exercised only where a stream object offers it (none "
+        "today); crashing events of the random streams remain outside the model comparison (direct oracle only).")
